@@ -261,13 +261,27 @@ fn parse_log(s: &str) -> Vec<(u64, u64)> {
 struct Run<'a> {
     rep: &'a mut Report,
     model: &'a mut Model,
+    /// false once model and implementation have diverged in this schedule: the real cluster keeps
+    /// running under the monitors (search for a failing input), the model is no longer consulted
+    model_on: bool,
+}
+
+impl Run<'_> {
+    fn ask(&mut self, line: &str) -> Option<String> {
+        if self.model_on {
+            Some(self.model.ask(line))
+        } else {
+            None
+        }
+    }
 }
 
 /// Execute one event on the real cluster and the model; returns false when the
 /// model and the implementation disagreed.
 fn exec(cl: &mut Cluster, ev: &Ev, run: &mut Run, trace: &mut Vec<String>, stream: &str) -> bool {
     let mut ok = true;
-    let cmp = |run: &mut Run, what: &str, imp: &str, model: &str, trace: &Vec<String>| {
+    let cmp = |run: &mut Run, what: &str, imp: &str, model: &Option<String>, trace: &Vec<String>| {
+        let Some(model) = model else { return true };
         if imp != model {
             run.rep.disagree(stream, json!({"at": what, "trace_tail": trace.iter().rev().take(12).rev().collect::<Vec<_>>()}), imp, model);
             false
@@ -284,7 +298,7 @@ fn exec(cl: &mut Cluster, ev: &Ev, run: &mut Run, trace: &mut Vec<String>, strea
                 let m = M::Pv(nd.current_term(), i as u64, nd.last_log_index(), nd.last_log_term());
                 let line = format!("prevote {i}");
                 trace.push(line.clone());
-                let ans = run.model.ask(&line);
+                let ans = run.ask(&line);
                 ok &= cmp(run, &line, &format!("{} || {}", m.text(), nd.verif_dump()), &ans, trace);
                 cl.broadcast(i, &m);
                 run.rep.hit("ev.prevote");
@@ -294,7 +308,7 @@ fn exec(cl: &mut Cluster, ev: &Ev, run: &mut Run, trace: &mut Vec<String>, strea
                 let m = M::Rv(nd.current_term(), i as u64, nd.last_log_index(), nd.last_log_term());
                 let line = format!("timeout {i}");
                 trace.push(line.clone());
-                let ans = run.model.ask(&line);
+                let ans = run.ask(&line);
                 ok &= cmp(run, &line, &format!("{} || {}", m.text(), nd.verif_dump()), &ans, trace);
                 cl.broadcast(i, &m);
                 run.rep.hit("ev.election");
@@ -323,17 +337,18 @@ fn exec(cl: &mut Cluster, ev: &Ev, run: &mut Run, trace: &mut Vec<String>, strea
                 }
             }
             let real = to_real(&m, geo);
+            let term_before = cl.node(dst).current_term();
             let reply = cl.node(dst).handle_message(&src.to_string(), &real);
             let reply_m = reply.as_ref().and_then(from_real);
             let line = format!("deliver {src} {dst} 1 {} {} {}", b(geo), b(elapsed), m.text());
             trace.push(line.clone());
-            let ans = run.model.ask(&line);
+            let ans = run.ask(&line);
             let nd = cl.node(dst);
             // a pre-vote response / TimeoutNow may start a real election inside the handler: the
             // sync API discards the RequestVote, so rebuild it from the node's state as the async path does
             let mut imp_reply = reply_m.as_ref().map_or("none".to_string(), M::text);
             let mut started: Option<M> = None;
-            if matches!(m, M::Pvr(..) | M::Tn(..)) && ans.starts_with("rv ") {
+            if matches!(m, M::Pvr(..) | M::Tn(..)) && nd.current_term() == term_before + 1 && nd.state() == tensor_chain::raft::RaftState::Candidate {
                 let rv = M::Rv(nd.current_term(), dst as u64, nd.last_log_index(), nd.last_log_term());
                 imp_reply = rv.text();
                 started = Some(rv);
@@ -375,7 +390,7 @@ fn exec(cl: &mut Cluster, ev: &Ev, run: &mut Run, trace: &mut Vec<String>, strea
             let r = cl.node(i).propose(block(*payload));
             let line = format!("propose {i} {payload} {}", b(allowed));
             trace.push(line.clone());
-            let ans = run.model.ask(&line);
+            let ans = run.ask(&line);
             let imp = match &r {
                 Ok(k) => format!("idx {k}"),
                 Err(_) => "none".to_string(),
@@ -401,7 +416,7 @@ fn exec(cl: &mut Cluster, ev: &Ev, run: &mut Run, trace: &mut Vec<String>, strea
             };
             let line = format!("aefor {i} {j}");
             trace.push(line.clone());
-            let ans = run.model.ask(&line);
+            let ans = run.ask(&line);
             ok &= cmp(run, &line, &imp.as_ref().map_or("none".to_string(), M::text), &ans, trace);
             if let Some(m) = imp {
                 run.rep.hit(if matches!(&m, M::Ae(_, _, _, _, _, es) if es.is_empty()) { "ae.heartbeat" } else { "ae.entries" });
@@ -419,7 +434,7 @@ fn exec(cl: &mut Cluster, ev: &Ev, run: &mut Run, trace: &mut Vec<String>, strea
             cl.hb_old[i] = false;
             let line = format!("crash {i}");
             trace.push(line.clone());
-            let ans = run.model.ask(&line);
+            let ans = run.ask(&line);
             ok &= cmp(run, &line, &format!("ok || {}", cl.node(i).verif_dump()), &ans, trace);
             run.rep.hit("ev.crash");
         }
@@ -628,6 +643,7 @@ fn run_schedule(cfg: Cfg, events: Option<Vec<Ev>>, nev: usize, r: &mut Rng, rep:
     let mut payload = 0u64;
     let mut nontrivial = false;
     let mut all_ok = true;
+    let mut model_on = true;
     let total = events.as_ref().map_or(nev, Vec::len);
     for step in 0..total {
         let ev = match &events {
@@ -637,13 +653,19 @@ fn run_schedule(cfg: Cfg, events: Option<Vec<Ev>>, nev: usize, r: &mut Rng, rep:
             },
             None => gen_event(r, &cl, &mut payload),
         };
-        let mut run = Run { rep, model };
+        let mut run = Run { rep, model, model_on };
         let ok = exec(&mut cl, &ev, &mut run, &mut trace, stream);
         let fine = monitors(&mut cl, rep, &trace);
         if !cl.committed.is_empty() {
             nontrivial = true;
         }
-        if !ok || !fine {
+        if !ok {
+            // correspondence broken: keep driving the REAL cluster under the monitors to look for
+            // a concrete failing input; stop consulting the (now diverged) model
+            model_on = false;
+            all_ok = false;
+        }
+        if !fine {
             all_ok = false;
             break;
         }
